@@ -210,6 +210,9 @@ func VerifH13b() {
 	// H13c: COPY messages left over after the cycle arrive outside COPY mode
 	// and are ignored without reply
 	for i := consumed; i < K; i++ {
+		if types[i] == 'Q' {
+			break // a further Query starts a new COPY cycle that consumes what follows
+		}
 		o, e := w.step()
 		if types[i] == 'd' || types[i] == 'c' || types[i] == 'f' {
 			vAssert("stray-copy-message-ignored", e == nil && o == "")
